@@ -218,6 +218,7 @@ var edgeCorpus = []string{
 	`(for [(def i 0) (< i 1) (set i (+ i 1))] (or (let [v 1] (continue)) 2))`, `(for [(def i 0) (< i 2) (set i (+ i 1))] (cond (newScope (break)) 1 2))`,
 	`(for [(def i 0) (< i 2) (set i (+ i 1))] (and (letseq [w 1] (cond (== i 0) (continue) w)) 3))`,
 	`(defn r0 [] (return)) (+ 5 (r0))`, `(defn sq0 [] (set %y 10)) (+ 1 (sq0))`, `(def ar0 [4 5 6]) (defn ai0 [] (set (arrayidx ar0 [1]) 99)) (+ 1 (ai0))`,
+	`(for [(def k 0) (< k 3) (set k (+ k 1))] (package "pkx" (def A (cond (== k 1) (break) 7))))`,
 	`(hash a:(begin) b:2)`, `[1 (begin) 2]`, `[(newScope)]`, `(len [(begin)])`,
 }
 
@@ -253,6 +254,20 @@ func main() {
 			if p, ok := obj["program"].(string); ok {
 				prog = p
 			}
+		}
+		if strings.HasPrefix(prog, "#api ") {
+			lines := strings.SplitN(prog, "\n#piece\n", 2)
+			var ctor, pre, lds string
+			fmt.Sscanf(lines[0], "#api ctor=%s pre=%s loaders=%s", &ctor, &pre, &lds)
+			ctor, pre, lds = strings.TrimPrefix(ctor, ""), pre, lds
+			pieces := []string{}
+			if len(lines) > 1 {
+				pieces = strings.Split(lines[1], "\n#piece\n")
+			}
+			s.apiHistory(ctor, pre, strings.Split(lds, ","), pieces)
+			fmt.Fprintf(os.Stderr, "replay api: depths=%s\n", depths(s.env))
+			out.Close(args.Stats)
+			return
 		}
 		s.fresh()
 		r := s.eval(prog, []string{"stream:replay"})
@@ -298,6 +313,12 @@ func main() {
 			s.evalEmpty()
 		}
 	}
+
+	// ---- (v) API histories: several Load* then one Run, every kind of interpreter ----
+	s.apiStream(rng, args.Tier == "thorough")
+
+	// ---- (vi) break/continue in every inline-compiled position ----
+	s.jumpMatrix(rng, args.Tier == "thorough")
 
 	// ---- (ii)+(iii) generated programs in long histories ----
 	nhist, perHist := 12, 60
